@@ -58,6 +58,8 @@ def _arg(a: dict) -> t.Any:
 
 def to_req(c: dict) -> t.Optional[dict]:
     """driver request for a modelled emulation case, None when the case has no model (value-only)"""
+    if any("e" in a or "r" in a for a in c["args"]):
+        return None  # compositions and aggregations are compared by value only
     fn, args = c["fn"], [_arg(a) for a in c["args"]]
     if c.get("tag") == "null-in" and fn != "array_position":
         return None
@@ -417,7 +419,18 @@ def show_case(c: dict) -> str:
             return f"col<{x['t']}>({x['c']!r})"
         if "l" in x:
             return f"lit({x['l']!r})"
+        if "e" in x:
+            return f"{x['e']['fn']}(" + ", ".join(a(y) for y in x["e"]["args"]) + ")"
+        if "r" in x:
+            return f"column<{x['t']}> of one group with rows {x['r']!r}"
         return repr(x["p"])
+
+    if c["args"] and "r" in c["args"][0]:
+        inner = f"{c['pre']}(v)" if c.get("pre") else "v"
+        s = f"{c['fn']}({inner})"
+        if c.get("post"):
+            s = f"{c['post']}({s})"
+        return f"groupBy(g).agg({s})  where v = {a(c['args'][0])}"
 
     if c["fn"] == "getItem":
         return f"{a(c['args'][0])}.getItem({a(c['args'][1])})"
@@ -433,7 +446,10 @@ def run(ctx: Ctx) -> None:
     rec = json.load(open(ORACLE))
     fixed = K.all_cases()
     rec_by_id = {c["id"]: c for c in rec["cases"]}
-    stale = [c["id"] for c in fixed if c["id"] not in rec_by_id or json.dumps(rec_by_id[c["id"]]["args"], sort_keys=True) != json.dumps(c["args"], sort_keys=True)]
+    def _key(c: dict) -> str:
+        return json.dumps([c["fn"], c["args"], c.get("pre"), c.get("post")], sort_keys=True)
+
+    stale = [c["id"] for c in fixed if c["id"] not in rec_by_id or _key(rec_by_id[c["id"]]) != _key(c)]
     if stale:
         ctx.broken.append(f"tools/oracle/spark_values.json is stale for {len(stale)} cases (re-record it): {stale[:3]}")
     n_rand = 1500 if ctx.thorough else 260
@@ -535,7 +551,10 @@ def run(ctx: Ctx) -> None:
             new_viol.append((c, iv, ref, m.get("scope"), ev))
     # failing inputs of unmodelled emulations (sqlframe's own composition, compared by value only)
     for c, iv, spv in emul_unmodelled_fail:
-        ks = [h for h, e in known.items() if e.get("unmodelled_function") == c["fn"]]
+        # a known finding of an unmodelled emulation names the EXACT failing cases (function, arguments, pre, post):
+        # any other failing input of the same function is a new violation
+        ck = json.dumps([c["fn"], c["args"], c.get("pre"), c.get("post")], sort_keys=True)
+        ks = [h for h, e in known.items() if ck in {json.dumps(k, sort_keys=True) for k in e.get("known_cases", [])}]
         if ks:
             for h in ks:
                 hits[h] += 1
@@ -586,9 +605,9 @@ def run(ctx: Ctx) -> None:
         vlib.report_violation(
             ctx,
             {
-                "kind": "the BigQuery factorial CASE table has a row that is not n!" if "bigquery" in c["group"] else "sqlframe on DuckDB does not return Spark's value for an emulated function",
+                "kind": "the BigQuery factorial CASE table has a row that is not n!" if "bigquery" in c["group"] else ("sqlframe on DuckDB does not hand back the Python value PySpark returns (conversion of engine values to Rows)" if c["group"] == "emul:rowconv" else "sqlframe on DuckDB does not return Spark's value for an emulated function"),
                 "call": show_case(c),
-                "case": {k: c[k] for k in ("fn", "args", "group", "unordered")},
+                "case": {k: c[k] for k in ("fn", "args", "group", "unordered", "pre", "post") if k in c},
                 "sqlframe_on_duckdb": iv,
                 "spark": ref,
                 "model_emul": ev,
